@@ -444,5 +444,54 @@ def g_fresh_memory(tier):
   return out
 
 
+def g_sparse_init(tier):
+  """(G6) the obligation behind D15: the constraint-force buffer is defined before the solver's first gradient reads it,
+  whatever memory it was allocated in. The sparse update kernels leave qfrc_constraint untouched for a world without
+  active rows, so _solve must select the sparse initialisation (_solve_init_dof, which zeroes such worlds) under exactly
+  the condition under which _update_constraint selects the sparse update kernels."""
+  import z3
+
+  from wpv.contracts import Obligation, Run
+  from wpv.sym import lift, zb
+
+  out = []
+  solve = extract.get_func("solver:_solve")
+  upd = extract.get_func("solver:_update_constraint")
+  atoms = {}
+
+  def cond(e, env):
+    if isinstance(e, ast.BoolOp):
+      vs = [cond(v, env) for v in e.values]
+      return z3.And(*vs) if isinstance(e.op, ast.And) else z3.Or(*vs)
+    if isinstance(e, ast.UnaryOp) and isinstance(e.op, ast.Not):
+      return z3.Not(cond(e.operand, env))
+    if isinstance(e, ast.Name) and e.id in env:
+      return cond(env[e.id], env)
+    return atoms.setdefault(ast.unparse(e), z3.Bool(ast.unparse(e)))
+
+  def local_defs(fn):
+    return {s.targets[0].id: s.value for s in fn.node.body if isinstance(s, ast.Assign) and len(s.targets) == 1 and isinstance(s.targets[0], ast.Name)}
+
+  calls = [n for n in ast.walk(solve.node) if isinstance(n, ast.Call) and ast.unparse(n.func) == "_solve_init_dof"]
+  ifs = [n for n in upd.node.body if isinstance(n, ast.If) and "_zero_qfrc_constraint_sparse" in ast.unparse(n.body)]
+  if len(calls) != 1 or len(calls[0].args) != 2 or len(ifs) != 1:
+    raise KeyError("solver:_solve / _update_constraint: _solve_init_dof call or sparse update branch not found")
+  a = cond(calls[0].args[1], local_defs(solve))
+  b = cond(ifs[0].test, local_defs(upd))
+  out.append(Obligation("_solve#sparse_init_iff_sparse_update", [], a == b, func="solver:_solve", kind="host", meta={"function": "solver:_solve", "source_hash": solve.source_hash, "goal": f"_solve_init_dof is specialised as sparse ({ast.unparse(calls[0].args[1])}) exactly when _update_constraint runs the sparse update kernels ({ast.unparse(ifs[0].test)})", "atoms": sorted(atoms)}))
+  # the sparse initialisation zeroes qfrc_constraint of a world without active rows; the two sparse update kernels do not touch it there
+  R = Run("solver:_solve_init_dof.kernel", closure={"WARMSTART": True, "SPARSE": True})
+  ws = [x for x in R.ex.st.log if x.kind == "w" and x.arr is R.params["qfrc_constraint_out"]]
+  goal = z3.Or(*[z3.And(zb(x.guard), lift(x.idx[0]) == R.ex.tids[0], lift(x.idx[1]) == R.ex.tids[1], lift(x.value, "float") == 0) for x in ws]) if ws else z3.BoolVal(False)
+  out.append(R.obligation("_solve_init_dof[SPARSE]#zeroes_unconstrained_worlds", z3.Implies(R.term("nefc_in[tid0] == 0"), goal), meta={"goal": "with the sparse specialisation, qfrc_constraint[world, dof] = 0 for a world with nefc == 0"}))
+  for key in ("solver:_zero_qfrc_constraint_sparse", "solver:_update_constraint_init_qfrc_constraint_sparse.kernel"):
+    for comp in ((False, True) if key.endswith(".kernel") else (None,)):
+      R = Run(key, closure={} if comp is None else {"COMPACT": comp})
+      tag = key.split(":")[1].replace(".kernel", "") + ("" if comp is None else f"[COMPACT={comp}]")
+      touched = [x for x in R.ex.st.log if x.kind in ("w", "atomic") and x.arr is R.params["qfrc_constraint_out"]]
+      out.append(R.obligation(f"{tag}#untouched_when_nothing_changed", z3.Implies(R.term("state_changed_count_in[tid0] == 0"), z3.Not(z3.Or(*[zb(x.guard) for x in touched]) if touched else z3.BoolVal(False))), meta={"goal": "a world whose change / row count is 0 is left untouched (so its value must have been defined by the initialisation)"}))
+  return out
+
+
 def groups(tier):
-  return [("fresh_memory", g_fresh_memory), ("global_frame", g_global_frame), ("memo_decorators", g_memo_decorators), ("cache_kernel_factories", g_cache_kernel_factories), ("factory_call_args", g_factory_call_args), ("cache_kernel_wrapper", g_cache_kernel_wrapper)]
+  return [("sparse_init", g_sparse_init), ("fresh_memory", g_fresh_memory), ("global_frame", g_global_frame), ("memo_decorators", g_memo_decorators), ("cache_kernel_factories", g_cache_kernel_factories), ("factory_call_args", g_factory_call_args), ("cache_kernel_wrapper", g_cache_kernel_wrapper)]
